@@ -40,6 +40,7 @@ pub struct PipeCfg {
     pub fault: Option<Fault>,
     /// per side (0 = A, 1 = B): shutting the write half down reports NotConnected (what a socket
     /// does once the peer has reset it); the half is closed all the same
+    #[serde(default)]
     pub shutdown_err: [bool; 2],
 }
 
@@ -235,7 +236,7 @@ pub fn describe_last_wire() -> String {
         Some(c) => c,
         None => return "no pipe".into(),
     };
-    let mut out = String::new();
+    let mut out = LAST_END.with(|l| format!(" [{}]", l.borrow()));
     for dir in 0..2 {
         let bytes = ctl.bytes(dir);
         out.push_str(&format!("\n  dir {} ({} bytes): ", if dir == 0 { "A->B" } else { "B->A" }, bytes.len()));
@@ -448,23 +449,80 @@ pub enum CaseEnd<T> {
 /// Run a case future to completion on a fresh current-thread runtime with the clock paused
 /// and a seeded `select!` RNG. A wedge is reported as `Hang` after `WATCHDOG_SECS` of
 /// *virtual* time, i.e. as soon as every task is idle.
+thread_local! {
+    static POLLS: std::cell::Cell<u64> = const { std::cell::Cell::new(0) };
+    static SPUN: std::cell::Cell<bool> = const { std::cell::Cell::new(false) };
+    static LAST_POLLS: std::cell::Cell<u64> = const { std::cell::Cell::new(0) };
+}
+
+/// Task polls allowed per case. The longest legitimate cases (64 KiB messages over a 1-byte-chunk
+/// transport) need a few hundred thousand; a task that is runnable forever (busy loop through the
+/// scheduler) never lets the paused clock advance, so the virtual-time watchdog cannot see it — the
+/// poll count does, exactly.
+pub const POLL_BUDGET: u64 = 20_000_000;
+
+/// task polls used by the last `run_case` on this thread
+pub fn last_polls() -> u64 {
+    LAST_POLLS.with(|c| c.get())
+}
+pub fn polls_now() -> u64 {
+    POLLS.with(|c| c.get())
+}
+
 pub fn run_case<F, T>(seed: u64, fut: F) -> (CaseEnd<T>, usize)
 where
     F: std::future::Future<Output = T>,
 {
+    crate::driver::tick();
+    POLLS.with(|c| c.set(0));
+    SPUN.with(|c| c.set(false));
     let rt = tokio::runtime::Builder::new_current_thread()
         .enable_time()
         .start_paused(true)
         .rng_seed(tokio::runtime::RngSeed::from_bytes(&seed.to_le_bytes()))
+        .on_before_task_poll(|_| {
+            let n = POLLS.with(|c| {
+                let n = c.get() + 1;
+                c.set(n);
+                n
+            });
+            if n == POLL_BUDGET {
+                SPUN.with(|c| c.set(true));
+                panic!("verif: poll budget exceeded");
+            }
+        })
         .build()
         .expect("runtime");
-    let r = rt.block_on(async { tokio::time::timeout(std::time::Duration::from_secs(WATCHDOG_SECS), fut).await });
+    let r = std::panic::catch_unwind(std::panic::AssertUnwindSafe(|| rt.block_on(async { tokio::time::timeout(std::time::Duration::from_secs(WATCHDOG_SECS), fut).await })));
+    LAST_POLLS.with(|c| c.set(POLLS.with(|p| p.get())));
+    let r = match r {
+        Ok(r) => r,
+        Err(p) => {
+            if SPUN.with(|c| c.get()) {
+                // our own budget panic: not a panic of the code under test
+                let _ = crate::driver::take_panics();
+                LAST_END.with(|l| *l.borrow_mut() = format!("SPIN: a task was polled {POLL_BUDGET} times without the case finishing (busy loop through the scheduler; the virtual clock cannot advance)"));
+                let alive = rt.metrics().num_alive_tasks();
+                // dropping a runtime whose task spins is fine: tasks are dropped, not polled
+                drop(rt);
+                return (CaseEnd::Hang, alive);
+            }
+            std::panic::resume_unwind(p)
+        }
+    };
     let alive = rt.metrics().num_alive_tasks();
     drop(rt);
     match r {
         Ok(v) => (CaseEnd::Done(v), alive),
-        Err(_) => (CaseEnd::Hang, alive),
+        Err(_) => {
+            LAST_END.with(|l| *l.borrow_mut() = "virtual-time watchdog".to_string());
+            (CaseEnd::Hang, alive)
+        }
     }
+}
+
+thread_local! {
+    static LAST_END: std::cell::RefCell<String> = const { std::cell::RefCell::new(String::new()) };
 }
 
 /// wait until every task is idle (exact under the paused clock)
